@@ -110,6 +110,11 @@ def apply_script(base, script, typool):
                 struct(d, "Color")["properties"][0][key] = val
                 a.update(touch="Color", list="structures")
                 touched.add("Color")
+            elif e["on"] == "soleEnumValue":
+                en = next(x for x in d["enumerations"] if len(x["values"]) == 1 and not x.get("supportsCustomValues"))
+                en["values"][0][key] = val
+                a.update(touch=en["name"], list="enumerations")
+                touched.add(en["name"])
             elif e["on"] == "enumValue":
                 en = next(x for x in d["enumerations"] if x["name"] == "MarkupKind")
                 en["values"][0][key] = val
@@ -382,6 +387,15 @@ def check(tier):
         # parents that have parents of their own (inheritance must be flattened transitively through mixins and extends)
         [{"k": "AddStructure", "name": NEW_S}, {"k": "AddMixin", "target": NEW_S, "parent": "HoverOptions"}],
         [{"k": "AddStructure", "name": NEW_S}, {"k": "AddExtends", "target": NEW_S, "parent": "HoverParams"}],
+        # a chain of four: a second new structure on top of the first, on top of one with a base of its own
+        [{"k": "AddStructure", "name": NEW_S}, {"k": "AddExtends", "target": NEW_S, "parent": "HoverRegistrationOptions"},
+         {"k": "AddStructure", "name": NEW_S + "2"}, {"k": "AddExtends", "target": NEW_S + "2", "parent": NEW_S},
+         {"k": "AddProperty", "target": NEW_S + "2", "name": "verifProp", "ty": "string", "optional": False}],
+        # two anonymous literals of one shape that differ only in a mark of an inner property
+        [{"k": "AddProperty", "target": "Color", "name": "verifProp", "ty": "literalProposed", "optional": True},
+         {"k": "AddProperty", "target": "Color", "name": "global", "ty": "literal", "optional": True}],
+        [{"k": "AddProperty", "target": "Color", "name": "verifProp", "ty": "literal", "optional": True},
+         {"k": "AddProperty", "target": "Color", "name": "global", "ty": "literalProposed", "optional": True}],
         [{"k": "AddEnum", "name": NEW_E, "base": "string"}, {"k": "AddEnumValue", "target": NEW_E}],
         # several anonymous literal types in one structure (the generators must name them apart)
         [{"k": "AddProperty", "target": "Color", "name": "verifProp", "ty": "literal", "optional": True},
